@@ -10,7 +10,7 @@ for d in /verif/seeded/${1:-*}/; do
   prop=$(python3 -c "import json;print(json.load(open('$d/meta.json'))['property'])")
   base=$(python3 -c "import json;print(json.load(open('$d/meta.json')).get('base',''))")
   onhead=$(python3 -c "import json;print(json.load(open('$d/meta.json')).get('manifests_on_head',True))")
-  want=$(python3 -c "import json;print(0 if json.load(open('$d/meta.json'))['caught_by_check'].startswith('no') else 1)")
+  want=$(python3 -c "import json;c=json.load(open('$d/meta.json'))['caught_by_check'];print(2 if 'exit 2' in c else 0 if c.startswith('no') else 1)")
   W=/var/tmp/seedreg.$$.$id; O=$W.out
   where=HEAD
   applied=no
